@@ -173,3 +173,23 @@ PROPS["C17"] = dict(
     rule="one case per grammar member; non-trivial when the file loaded and the complete delivered trace matched the reference interpreter",
     assumptions=SEQ_ASSUME,
 )
+
+PROPS["C19"] = dict(
+    level="model_checking", engine="enum", title="only well-formed, correctly addressed SysEx messages take effect",
+    technique="exhaustive enumeration of message mutations (all single-byte x256, two-byte over a 16-value alphabet, truncations/extensions, all checksums and device bytes, all alphabet strings up to a length bound) x prior synthesizer states x device ids against a reference validity predicate and effect model; full private-state + chip-register snapshot comparison around every call",
+    level_text="For every enumerated byte string the call's verdict must agree with the reference predicate (F0..F7 framing, 7-bit data, device match or broadcast, exact length, Roland checksum); an accepted message must have the documented effect "
+               "(mode switch with controller reset, master volume, GS drum-part flag), a rejected one must return 0 and leave the full snapshot and every chip register untouched.",
+    level_note="don't-care (either verdict, effect checked when accepted): broadcast device byte 7F on Roland/Yamaha messages and non-canonical data values of the mode-switch messages; strings longer than the alphabet bound are covered only as mutations of the 7 recognised messages",
+    legs=[Leg("sysex", ["models/c19_sysex.cpp"], "fast", [], []), Leg("sysex_asan", ["models/c19_sysex.cpp"], "asan", [], [])],
+    rule="one case per (family, index); reference predicate verdict + snapshot equality; non-trivial when the verdict was checked",
+    assumptions=E2_ASSUME[:1] + ["null chips; a prepared instance is reused across rejected messages (identical snapshot is asserted) and rebuilt after every accepted one"],
+)
+PROPS["C12"] = dict(
+    level="model_checking", engine="enum", title="bank select + program change pick the documented instrument, with fallbacks",
+    technique="exhaustive enumeration of bank layouts (all subsets of a 7-bank universe x blank patterns) x all short bank-select/program/mode histories x keys, lock-step reference resolver, uploaded instrument identified by signature bytes in the register tap",
+    level_text="On every layout every history (mode GM/GS/XG, GS drum part, channel 1/4/10, MSB {0,1,126,127}, LSB {0,1}, program {0,5}, key {35,60}, three bank-select API paths, both orders of bank/program) is played; the instrument written to the chip (or the rejection) and the pitch registers must be those of the documented resolution: exact entry, LSB cleared, bank 0, silent; percussion by program/key/drum key; LSB ignored in GS; replaced instruments played.",
+    level_note="reference resolver in models/c12_banksel.cpp (resolve()); per-mode alphabets so that the model only speaks where the statement does (MSB 126/127 only in XG); the SFX kit bank (key 133) is inserted directly into the map because the bank API cannot address LSB > 127",
+    legs=[Leg("resolve", ["models/c12_banksel.cpp"], "fast", [], [])],
+    rule="one case per layout (all histories run on it); non-trivial when every history matched the resolver",
+    assumptions=E2_ASSUME[:1] + ["null chips; instrument identity = 5-bit signature in register 0x60 of operator 1"],
+)
